@@ -40,6 +40,8 @@ structure DSt where
   markers : List String
   /-- keys whose delete was acknowledged and that were not set again -/
   ackDel : List String
+  /-- a stale close callback removed a fresh instance from the map -/
+  orphaned : Bool := false
 
 def keyNum (k : String) : Nat := match k with | "a" => 1 | "b" => 2 | "c" => 3 | _ => 9
 
@@ -112,7 +114,7 @@ def idOf (n : String) : Nat := match n with | "A" => 1 | "B" => 2 | "C" => 3 | _
 def step (d : DSt) (line : String) : DSt × String :=
   match words line with
   | ["case", _, _, _] =>
-    ({ d with s := init [], gens := [], fileV := [], ths := [], next := 10, flagged := false, markers := [], ackDel := [] }, line)
+    ({ d with s := init [], gens := [], fileV := [], ths := [], next := 10, flagged := false, markers := [], ackDel := [], orphaned := false }, line)
   | ["set", k, v] =>
     let t := d.next
     match acts d (summonActs d t) with
@@ -139,6 +141,37 @@ def step (d : DSt) (line : String) : DSt × String :=
           let (d5, fl) := flag d d4 "C16-auto-destroy-loses-acked-write"
           ({ d5 with next := t + 1 }, st ++ fl)
         | none => (d, "hang")
+  | ["spawn", n, "close"] =>
+    if d.ths.any (·.name == n) then (d, "bad-op") else
+    if !d.s.live || d.s.closing then
+      ({ d with ths := d.ths ++ [{ name := n, id := idOf n, kind := "close", key := "", val := "", stage := "done", gen := d.s.gen }] }, s!"{n} done closed")
+    else
+      -- Close(): flip, flush, cancel; parked before the callback that removes the map entry
+      match act { d with s := { d.s with closing := true, stage := 1 } } .closeFlush with
+      | some d1 => ({ d1 with ths := d1.ths ++ [{ name := n, id := idOf n, kind := "close", key := "", val := "", stage := "flushed", gen := d.s.gen }] }, s!"{n}@swamp.closed")
+      | none => (d, "ERR")
+  | ["spawnw", n, "set", k, v] =>
+    if d.ths.any (·.name == n) then (d, "bad-op") else
+    match act d (.summon (idOf n)) with
+    | none =>
+      let t : Th := { name := n, id := idOf n, kind := "set", key := k, val := v, stage := "waiting", gen := 0 }
+      ({ d with ths := d.ths ++ [t] }, s!"{n} waiting")
+    | some d1 =>
+      let t : Th := { name := n, id := idOf n, kind := "set", key := k, val := v, stage := "summoned", gen := (d1.s.th (idOf n)).gen }
+      ({ d1 with ths := d1.ths ++ [t] }, s!"{n}@gw.set.summoned")
+  | ["poll", n] =>
+    match d.ths.find? (·.name == n) with
+    | none => (d, "bad-op")
+    | some t =>
+      let upd := fun (d' : DSt) (stage : String) (g : Nat) => { d' with ths := d'.ths.map (fun u => if u.name == n then { u with stage := stage, gen := g } else u) }
+      match t.kind, t.stage with
+      | "set", "waiting" =>
+        match act d (.summon t.id) with
+        | none => (d, s!"{n} waiting")
+        | some d1 => (upd d1 "summoned" (d1.s.th t.id).gen, s!"{n}@gw.set.summoned")
+      | "set", "summoned" => (d, s!"{n}@gw.set.summoned")
+      | "set", "vigil" => (d, s!"{n}@gw.set.vigil")
+      | _, _ => (d, "bad-op")
   | ["spawn", n, "set", k, v] =>
     if d.ths.any (·.name == n) then (d, "bad-op") else
     match act d (.summon (idOf n)) with
@@ -187,9 +220,19 @@ def step (d : DSt) (line : String) : DSt × String :=
         let (d1, st) := writeV d t.gen t.key t.val
         match acts d1 [.write t.id (keyNum t.key), .cease t.id] with
         | some d2 =>
-          let (d3, fl) := flag d d2 "C16-idle-close-loses-acked-write"
+          let (d3, fl) := flag d d2 (if d.orphaned then "C16-summon-replaces-closing-instance" else "C16-idle-close-loses-acked-write")
           (upd d3 "done", s!"{n} done {st}" ++ fl)
         | none => (d, "ERR")
+      | "close", "flushed" =>
+        -- the close callback removes whatever is mapped under the name
+        if d.s.unmapPending then
+          match act d .staleUnmap with
+          | some d1 => (upd { d1 with orphaned := true } "done", s!"{n} done closed")
+          | none => (d, "ERR")
+        else
+          match act d .closeDone with
+          | some d1 => (upd d1 "done", s!"{n} done closed")
+          | none => (d, "ERR")
       | "del", "draining" =>
         match destroyFin d t.id with
         | some d1 =>
@@ -235,7 +278,8 @@ def run (args : List String) : IO UInt32 := do
   let kv := parseArgs args
   let yes := fun (k : String) => arg kv k == "yes"
   let cfg : Cfg := { destroyRechecks := yes "destroyRechecksAfterDrain",
-                     atomicSummon := yes "listenerReadsTouchUnderLock" && yes "summonTakesVigil" }
+                     atomicSummon := yes "listenerReadsTouchUnderLock" && yes "summonTakesVigil",
+                     summonWaitsForUnmap := arg kv "summonWaitsForUnmap" != "no" }
   lineLoop step { cfg := cfg, s := init [], gens := [], fileV := [], ths := [], next := 10, flagged := false,
                   recreateDropsMarker := arg kv "recreateDropsDeleteMarker" != "no", markers := [], ackDel := [] }
   return 0
